@@ -22,7 +22,7 @@ CHECK = {
     ],
     "opts": {"unwind": 8, "substitute": SUB, "feasibility": False, "batch_fresh": True, "reach_fresh": True, "equalfold_ascii": True},
     "stop": [k for k in SUB.keys() if k.startswith("(*" + P)],
-    "timeout_ms": {"quick": 400000, "thorough": 1800000},
+    "timeout_ms": {"quick": 900000, "thorough": 2400000},
     "explanation": "One handler step from an arbitrary state, volatile mode (no durable queue). "
                    "vC43_producer: the real (*producerController).Receive (handleRegisterConsumer, handleRequest, handleAck, handleProduced, handleStoredAck, handleTick, handleTerminated, fromRegisteredConsumer, advanceConfirmed, sendConfirmation, resendUnconfirmed, allowNextRequest, sendRequestNext, startStore, completeStore, replyStored, startAccept, completeAccept, emitSequenced, terminate and the protocol constructors) runs for one arbitrary message "
                    "(any of the 7 kinds, any sender among registered consumer controller / producer / stranger, current or stale session, nonce, token, any int64 confirmation and demand values the commands' validate() accepts) from an arbitrary state with 0 <= confirmedSeq <= currentSeq, unconfirmed = the 0..3 contiguous sequences (confirmedSeq, currentSeq], any demandUpTo, handshake Idle / Credit / StoredAck, registered or not. "
